@@ -34,6 +34,15 @@ CLAIMED = {
              'input doubles themselves (no arithmetic), hence exact.',
         note='Numbers cross format()/float() as placeholder literals (models float(repr(x))==x); Arc._parameterize is a no-op here; relative-form rounding is outside (reals); no zero-length Line; radii > 0.',
         design='3/C01'),
+    'C02': dict(
+        text='State machine: every program M c1..ck over the 20 command letters (k<=2 quick + all "curve, any, S/T" programs of length 3; '
+             'k<=3 thorough), with implicit-repetition variants, is parsed by the real _parse_path from a token stream with symbolic '
+             'arguments; z3 compares the segment list with a reference interpreter written from the SVG spec for ALL argument values '
+             '(exceptions on grammatical programs are violations).  Lexer: the live FLOAT_RE/COMMAND_RE are translated to z3 regular '
+             'expressions: language equality with the SVG number grammar, maximal-munch obligations for adjacent numbers (explicit, sign, '
+             'dot separators), separator and command-letter obligations, arc flags without separators.',
+        note='Arc._parameterize no-op; flags enumerated; arcs ending at the current point excluded; leftmost-longest matching of FLOAT_RE assumed (witnesses go through the real re); token length <= 8 (12 thorough). One recorded known finding (arc flags without separators).',
+        design='3/C02'),
 }
 
 NOT_YET = 'check not built yet in this round (see DESIGN.md section 3 for the plan)'
